@@ -184,6 +184,13 @@ def callee_key(c):
     return c["def"]
 
 
+def inline_consts(fn, ev):
+    """local functions whose arguments are all constants are evaluated in place (const fn helpers such as `ceil_div(bits, 7)`)"""
+    if fn.argc == 0:
+        return True
+    return all(is_c(a) for a in ev["args"])
+
+
 class State:
     __slots__ = ("frames", "store", "pc", "events", "visits", "steps", "tagfacts", "status", "ret", "ids")
 
@@ -1051,7 +1058,7 @@ def _m_identity(eng, st, callee, args, ev):
 
 def _m_into_iter(eng, st, callee, args, ev):
     a = args[0]
-    if a[0] == "agg" and a[1] == "adt" and a[2] and a[2].endswith("::Range"):
+    if a[0] == "agg" and a[1] == "adt" and a[2] and a[2].endswith(("::Range", "::RangeInclusive")):
         return a
     if a[0] == "agg" and a[1] == "array":
         # by-value array iterator: elements in index order
@@ -1063,11 +1070,25 @@ def _m_into_iter(eng, st, callee, args, ev):
     return NotImplemented
 
 
+def _m_range_incl_new(eng, st, callee, args, ev):
+    return ("agg", "adt", "core::ops::range::RangeInclusive", "RangeInclusive", ("start", "end", "exhausted"), (args[0], args[1], FALSE), 0)
+
+
 def _m_range_next(eng, st, callee, args, ev):
     r = args[0]
     if r[0] != "ref":
         return NotImplemented
     v = eng.read(st, r[1])
+    if v[0] == "agg" and v[1] == "adt" and v[2] and v[2].endswith("ops::range::RangeInclusive"):
+        s, e, ex = v[5][0], v[5][1], v[5][2]
+        if is_c(s) and is_c(e) and is_c(ex):
+            if ex[1] or s[1] > e[1]:
+                return ("agg", "adt", "core::option::Option", "None", (), (), 0)
+            if s[1] < e[1]:
+                eng.write(st, r[1], v[:5] + ((C(s[1] + 1, s[2]), e, FALSE),) + v[6:])
+            else:
+                eng.write(st, r[1], v[:5] + ((s, e, TRUE),) + v[6:])
+            return ("agg", "adt", "core::option::Option", "Some", ("0",), (s,), 1)
     if v[0] == "agg" and v[1] == "adt" and v[2] == "core::array::iter::IntoIter":
         arr, pos = v[5][0], v[5][1]
         if is_c(pos) and arr[0] == "agg":
@@ -1739,6 +1760,9 @@ MODELS = {
     "std::mem::size_of": _m_size_of,
     "core::mem::size_of": _m_size_of,
     "core::ops::try_trait::Try::branch": _m_try_branch,
+    "std::ops::RangeInclusive::<Idx>::new": _m_range_incl_new,
+    "core::ops::range::RangeInclusive::<Idx>::new": _m_range_incl_new,
+    "core::convert::From::from": _m_from_bool,
     "core::ops::try_trait::FromResidual::from_residual": _m_from_residual,
     "std::result::Result::<T, E>::map_err": _m_map_err,
     "std::result::Result::<T, E>::map": _m_result_map,
